@@ -13,6 +13,7 @@ TESTS = {
     "replay": ["witness_wal_damage"],
     "persist": ["witness_snapshot_reload_refcounts"],
     "applywal": ["witness_state_apply_logical_op"],
+    "intents": ["witness_intents_protocol"],
 }
 
 
